@@ -443,6 +443,16 @@ def classify_history(chk, P, fresh, cex, last, bad, seq_cex, hist_index=None):
             'replay': 'echo the JSON list `sequence` | tools/checks/po_fresh.py run   (all ops in ONE new process, in this order; the last result is wrong; '
                       'load ops: write bytes.fromhex(hex) to a file and polib.pofile(path) after Checker.patch_environment())'}
 
+TIE_EXPLANATION = (
+    ' TIE BY TRANSLATION (Props/C10Tie.lean): lib/polib4us.py is regenerated from the current source on every run (tools/translate/polib4us2lean.py -> '
+    'Generated/Polib4us.lean over the kit Model/PoPy.lean) — _wrap_octal_escape, polib_unescape with its inner unescape(match), the POEntry.flags setter, the patched '
+    'translated(), Codecs._is_ignored_comment and the generator Codecs.open — and proved equal, for all strings / files / charsets / environments, to unescape, setFlags, '
+    'translated, isIgnoredComment and decodeFile + preprocess of Model/Po.lean: generated_wrap_octal_escape_eq_model, generated_unescape_inner_eq_model, '
+    'generated_polib_unescape_eq_model, generated_set_flags_eq_model, generated_translated_eq_model, generated_is_ignored_comment_eq_model, '
+    'generated_codecs_open_eq_model; restated about the regenerated functions: unescape_spelling_generated, unescape_witnesses_generated, translated_iff_generated, '
+    'codecs_open_keeps_body_generated, codecs_open_decode_error_generated (coverage.tie; twin streams po-unescape-generated, po-preprocess-generated, '
+    'po-setflags-generated). polib\'s own _POFileParser and detect_encoding stay hand-modelled.')
+
 def main():
     chk = common.Check('C10')
     import po_common as P
@@ -683,8 +693,11 @@ def main():
                  'Python codecs are a parameter (Env): the driver implements ASCII, ISO-8859-1, UTF-8, single-byte charmaps read from Python, and multi-byte codecs as a table over the '
                  'generator\'s repertoire (well-formed stream only); files needing another family are skipped and counted',
                  'Spec.PoSpelling is my reading of the PO syntax (gettext manual, po-lex.c): no msgfmt/msgunfmt is installed to compare with',
+                 'tools/translate/polib4us2lean.py + tools/translate/pytr (the translated subset of lib/polib4us.py) and the kit Model/PoPy.lean: the five regexes '
+                 'pinned by pattern text and standing for the model\'s scanners on both sides; on a run of escapes the two fix-up substitutions act escape by escape and '
+                 'literal_eval yields each escape\'s byte; the stack-frame hack is the parameter file_encoding; a generator is the list it yields',
                  'the correspondence harness (tools/checks/po_common.py, Driver/Po.lean)'],
-        explanation=EXPLANATION)
+        explanation=EXPLANATION + TIE_EXPLANATION)
 
 EXPLANATION = (
     'Proved in Lean (Props/C10.lean; all strings, all spellings, every codec environment satisfying CodecOk = ASCII-transparent charset that decodes what it encodes): '
